@@ -1033,7 +1033,7 @@ mod builtins {
         let items_per_slice = len / count;
         let slices_with_extra = len % count;
         let mut offset = 0;
-        let mut rv = Vec::with_capacity(count);
+        let mut rv = Vec::with_capacity(untrusted_size_hint(count));
 
         for slice in 0..count {
             let start = offset + slice * items_per_slice;
